@@ -133,6 +133,10 @@ CURATED = [
     ('redeclare-kinds', 's := @h0@\nfn f() {\n    return 1\n}\n[a, b] := [1, 2]\nif s == 0 {\n    print(1)\n}\n' + ''.join('%s\n' % l for l in []) ),
     ('capture-then-shadow', 'x := @h1@\nfn mk() {\n    print(x)\n    f := fn () {\n        return x\n    }\n    g := fn (v) {\n        x = v\n    }\n    print(f())\n    x := @h2@\n    print(f())\n    g(@h3@)\n    print(x)\n    return f\n}\nh := mk()\nprint(h())\nprint(x)\n{\n    print(x)\n    k := fn () {\n        return x\n    }\n    print(k())\n    x := @h4@\n    print(k())\n}\nprint(x)\n'),
     ('pattern-names-see-outer', 'field := "name"\nrows := [{"name": @h1@, "born": 1815}, {"name": @h2@, "born": 1912}]\nfn who({field: w}) {\n    return w\n}\nprint(who(rows[0]))\nfor [i, {field: w}] in rows {\n    print(w)\n}\npick := fn (k, {k: v}) {\n    return v\n}\nprint(pick("born", rows[1]))\n{field: a} := rows[1]\nprint(a)\nfn outer() {\n    col := "born"\n    return fn ({col: c, field: n}) {\n        return [c, n]\n    }\n}\nprint(outer()(rows[0]))\nb := 0\n{field: b} = rows[0]\nprint(b)\n'),
+    ('shadow-init-reads-outer', 'x := @h1@\n{\n    x := x + 1\n    print(x)\n}\nprint(x)\nfn f() {\n    x := x * 2\n    return x\n}\nprint(f())\nfor [i, v] in [1] {\n    x := [x, v]\n    print(x)\n}\nif @b1@ {\n    total := total\n    print(total)\n}\nif @b2@ {\n    cnt := cnt + 1\n}\nprint(x)\n'),
+    ('escaped-closure-calls-sibling', 'fn helper(v) {\n    return v - 1\n}\nfn mk() {\n    fn helper(v) {\n        return v + 1\n    }\n    return fn (v) {\n        return helper(v)\n    }\n}\nprint(mk()(@h1@))\ng := null\n{\n    fn down(n) {\n        if n == 0 {\n            return 0\n        }\n        return 1 + down(n - 1)\n    }\n    g = down\n}\nprint(g(3))\nfs := []\nfor [i, v] in [@h2@, 5] {\n    fn addv(w) {\n        return v + w\n    }\n    fs += [fn (w) {\n        return addv(w)\n    }]\n}\nprint(fs[0](1))\nprint(fs[1](1))\n'),
+    ('scope-after-early-exit', 'n := @h1@\ni := 0\nwhile i < 3 {\n    i += 1\n    {\n        n := 100 + i\n        if i == 2 {\n            break\n        }\n        if i == 1 {\n            continue\n        }\n    }\n}\nprint(n)\nn = n + 1\nprint(n)\nfor [k, v] in [7, 8] {\n    m := v\n    if k == 0 {\n        continue\n    }\n    break\n}\nm := @h2@\nprint(m)\nfn f() {\n    for [k, v] in [1] {\n        q := v\n        return q\n    }\n}\nprint(f())\nq := @h3@\nprint(q)\n'),
+    ('dup-params-in-literals', 'if @b1@ {\n    h := fn (a, a) {\n        return a\n    }\n    print(h(1, 2))\n}\nif @b3@ {\n    o := {"m": fn (p, [p]) {\n        return p\n    }}\n    print(o.m(1, [2]))\n}\nfn ok(_, b, _) {\n    return b\n}\nprint(ok(1, @h1@, 3))\nprint((fn (_, _) {\n    return 4\n})(1, 2))\n'),
     ('paren-names', 'if @b1@ {\n    print(  (w))\n}\nif @b2@ {\n    (  w) = 1\n}\nif @b3@ {\n    ( w) += 1\n}\nif @b4@ {\n    z := {(  w)}\n}\n( w) := @h1@\nprint(w)\nif @b5@ {\n    (   w) := 2\n}\nprint((w) + 1)\n'),
     ('use-before-decl', 'if @b1@ {\n    print(w)\n}\nif @b2@ {\n    w = 1\n}\nif @b3@ {\n    w += 1\n}\nw := @h1@\nprint(w)\n'),
     ('underscore', '_ := @h1@\n_ := @h2@\n[_, _, k] := [1, 2, @h3@]\nprint(k)\nfn f(_, _) {\n    return 1\n}\nprint(f(1, 2))\nfor [_, _] in [1] {\n    print(3)\n}\nif @b1@ {\n    print(_)\n}\n_ = 5\nprint(4)\n'),
